@@ -374,7 +374,8 @@ const CHANS: [&str; 4] = ["channel-0", "channel-1", "channel-2", "channel-10"];
 // `gamm` / `gamm/pool/1`: a native denom that itself contains the voucher separator, next to the denom that is its
 // first path segment (inside `/`-separated renderings a denom's own `/` is written `~`, see `slash_enc`)
 // `UATOM`: a second coin that differs from another only in letter case (denoms are case sensitive)
-const DENOMS: [&str; 5] = ["uatom", "ustake", "gamm", "gamm/pool/1", "UATOM"];
+// `factory/x/uatom`: a denom whose LAST path segment is another denom of the world
+const DENOMS: [&str; 6] = ["uatom", "ustake", "gamm", "gamm/pool/1", "UATOM", "factory/x/uatom"];
 
 /// a denom inside a `/`-separated rendering (`sent=`, `sub=`): its own `/` becomes `~`
 fn slash_enc(d: &str) -> String {
